@@ -405,7 +405,12 @@ func TestVFC11Authenticated(t *testing.T) {
 
 		// 2. state-changing methods with a body that is not JSON: 405 for the
 		// methods the route does not declare, 415 for the one it does
-		ctype := rapid.SampledFrom([]string{"text/plain", "application/x-www-form-urlencoded", "multipart/form-data", ""}).Draw(t, "ctype")
+		ctype := rapid.SampledFrom([]string{
+			"text/plain", "application/x-www-form-urlencoded", "multipart/form-data", "",
+			// non-JSON media types that merely mention JSON
+			"text/plain; charset=application/json", "multipart/form-data; boundary=application/json",
+			"application/x-www-form-urlencoded; x=application/json", "text/application/json", "application/jsonp",
+		}).Draw(t, "ctype")
 		declared := 0
 		for _, m := range []string{"POST", "PUT", "DELETE"} {
 			r = vfNewRequest(vfShape{Method: m, CType: ctype, Body: "name=x&enabled=true"}, route)
